@@ -64,6 +64,7 @@ func runCanon(arg string) {
 		m, _ = strconv.Atoi(parts[2])
 	}
 	set := map[string]bool{}
+	var edges []string
 	add := func(v any) bool {
 		b, _ := json.Marshal(v)
 		if set[string(b)] {
@@ -117,10 +118,18 @@ func runCanon(arg string) {
 		for len(queue) > 0 && len(set) < 2000000 {
 			p := queue[0]
 			queue = queue[1:]
+			from, _ := json.Marshal(mk(p))
 			for k := 1; k <= n; k++ {
 				for _, put := range []bool{true, false} {
 					np := append(append([]step{}, p...), step{put, k})
-					if add(mk(np)) {
+					to := mk(np)
+					tb, _ := json.Marshal(to)
+					opn := "Remove"
+					if put {
+						opn = "Put"
+					}
+					edges = append(edges, fmt.Sprintf("E|[%s,%q,%d,%s]", from, opn, k, tb))
+					if add(to) {
 						queue = append(queue, np)
 					}
 				}
@@ -247,5 +256,8 @@ func runCanon(arg string) {
 	sort.Strings(keys)
 	for _, k := range keys {
 		fmt.Fprintln(os.Stdout, k)
+	}
+	for _, e := range edges {
+		fmt.Fprintln(os.Stdout, e)
 	}
 }
